@@ -16,6 +16,8 @@ import ast
 from .. import astutil as A
 from ..alg import Interp, NotHandled, Obj, Poly, PyFunc, RaisedInFragment, Undecided, to_poly
 
+FLATTEN = (Poly.const(-1),)  # the shape every batched arm flattens its parameter rows with
+
 T = "src/pyhf/tensor/"
 BACKENDS = {"numpy": (T + "numpy_backend.py", "numpy_backend", ("np", "numpy")), "jax": (T + "jax_backend.py", "jax_backend", ("jnp",)),
             "pytorch": (T + "pytorch_backend.py", "pytorch_backend", ("torch",)), "tensorflow": (T + "tensorflow_backend.py", "tensorflow_backend", ("tf",))}
@@ -28,6 +30,7 @@ _NP = {
     "stack": ("stack", [("arrays", "seq"), ("axis", "axis")]), "where": ("where", [("condition", "mask"), ("x", "x"), ("y", "y")]), "concatenate": ("concatenate", [("arrays", "seq"), ("axis", "axis")]),
     "reshape": ("reshape", [("a", "x"), ("newshape", "shape"), ("order", "order")]), "ravel": ("ravel", [("a", "x"), ("order", "order")]), "ones": ("ones", [("shape", "shape"), ("dtype", "dtype")]), "zeros": ("zeros", [("shape", "shape"), ("dtype", "dtype")]),
     "asarray": ("astensor", [("a", "x"), ("dtype", "dtype")]), "array": ("astensor", [("object", "x"), ("dtype", "dtype")]),
+    "minimum": ("minimum", [("x1", "x"), ("x2", "y")]), "maximum": ("maximum", [("x1", "x"), ("x2", "y")]),
     "min": ("min_of", [("a", "x")]), "max": ("max_of", [("a", "x")]), "amin": ("min_of", [("a", "x")]), "amax": ("max_of", [("a", "x")]),
 }
 _TORCH = {
@@ -47,6 +50,7 @@ _TF = {
     "stack": ("stack", [("values", "seq"), ("axis", "axis")]), "where": ("where", [("condition", "mask"), ("x", "x"), ("y", "y")]), "concat": ("concatenate", [("values", "seq"), ("axis", "axis")]),
     "gather": ("gather", [("params", "x"), ("indices", "indices")]), "ones": ("ones", [("shape", "shape"), ("dtype", "dtype")]), "zeros": ("zeros", [("shape", "shape"), ("dtype", "dtype")]),
     "reduce_min": ("min_of", [("input_tensor", "x")]), "reduce_max": ("max_of", [("input_tensor", "x")]),
+    "minimum": ("minimum", [("x", "x"), ("y", "y")]), "maximum": ("maximum", [("x", "x"), ("y", "y")]),
 }
 LIB_TABLES = {"numpy": _NP, "jax": _NP, "pytorch": _TORCH, "tensorflow": _TF}
 # tensor METHOD forms used by the backends: x.tile(reps) (torch), x.transpose()
@@ -71,7 +75,7 @@ OPS = {
     "stack": ("stack", {"sequence": "seq", "axis": "axis"}, [{}]),
     "where": ("where", {"mask": "mask", "tensor_in_1": "x", "tensor_in_2": "y"}, [{}]),
     "concatenate": ("concatenate", {"sequence": "seq", "axis": "axis"}, [{}]),
-    "reshape": ("reshape", {"tensor": "x", "newshape": "shape"}, [{}]),
+    "reshape": ("reshape", {"tensor": "x", "newshape": "shape"}, [{}, {"newshape": FLATTEN}]),  # FLATTEN: the (-1,) every batched arm flattens its parameter rows with
     "boolean_mask": ("boolean_mask", {"tensor": "x", "mask": "mask"}, [{}]),
     "gather": ("gather", {"tensor": "x", "indices": "indices"}, [{}]),
     "einsum": ("einsum", {"subscripts": "spec", "operands": "operands"}, [{}]),
@@ -291,6 +295,19 @@ def _normalise(c, backend=None):
         if isinstance(v, _Wrap) and v.canon.op == "max_of" and _show(v.canon.roles.get("x")) == _show(roles.get("x")):
             roles["hi"] = None
         return _Canon("clip", roles)
+    if c.op == "minimum" and isinstance(c.roles.get("x"), _Wrap) and c.roles["x"].canon.op == "maximum":
+        # min(max(t, lo), hi): a clip in which the UPPER bound wins when the bounds cross (numpy's order).  With the upper bound
+        # substituted by the tensor's own maximum (tensorflow backend, max_value=None) that is NOT "no upper clipping": when every
+        # entry is below lo the result is max(t) < lo
+        inner = c.roles["x"].canon
+        hi = c.roles.get("y")
+        roles = {"x": inner.roles.get("x"), "lo": inner.roles.get("y"), "hi": hi}
+        if isinstance(hi, _Wrap) and hi.canon.op == "max_of":
+            roles["order"] = "upper bound wins, upper bound = max(tensor)"
+        return _normalise(_Canon("clip", roles), None)
+    if c.op == "ravel" and c.roles.get("order") in (None, "C"):
+        # ravel(x) in row-major order IS reshape(x, (-1,))
+        return _Canon("reshape", {"x": c.roles.get("x"), "shape": FLATTEN})
     if c.op in ("reshape", "ravel") and "order" in c.roles:
         # numpy / jax reshape(a, shape, order) and ravel(a, order): 'C' (row-major, the last axis fastest) is the default and what every
         # caller's flat indices assume; 'F' reads column-major and 'A' / 'K' do so for column-major (e.g. transposed) inputs
